@@ -65,8 +65,11 @@ class Ctx:
             self.discharged = list(names)
         else:
             self.discharged = []
-            self.violation('proof obligations of Properties/%s.v no longer check' % self.pid,
-                           {'broken': 'Properties/%s.v' % self.pid, 'log': logtxt[-3000:]}, found_input=False)
+            payload = {'broken': 'Properties/%s.v' % self.pid, 'log': logtxt[-3000:]}
+            if self.pid == 'C02':
+                # which map iterations of the source are not the classified code any more
+                payload['uncovered_map_iterations'] = core.eval_term('C02u', 'uncovered_sites', 'From RDM Require Import Proofs.MapSites.\n')[:3000]
+            self.violation('proof obligations of Properties/%s.v no longer check' % self.pid, payload, found_input=False)
         if ok and self.tier == 'thorough' and not os.environ.get('VERIF_NO_COQCHK'):
             # independent re-check of the compiled property file and everything it depends on
             import subprocess
